@@ -498,7 +498,7 @@ func selfCheck(pl *plan) string {
 // order in which goroutines come to rest is then not the scheduler's alone, so its
 // trace hash is not expected to repeat exactly.
 func realTime(sc *Scenario) bool {
-	if sc.ConsStallMs > 0 {
+	if sc.ConsStallMs > 0 || sc.GCStormMs > 0 {
 		return true
 	}
 	// a thinned-out set of automatic hooks (every m-th lock or atomic operation parks)
